@@ -8,7 +8,9 @@
 // is concluded from elapsed wall-clock time, "blocked forever" needs a goroutine dump showing onResponse parked in a
 // channel send, "lost reply" needs hook-ordered knowledge that the response was processed before the requester started
 // to wait. Further classes: stalled peer (stalled_test.go), late-response storm + blocked-layer watchdog (storm_test.go),
-// identical payloads (twins_test.go), Connection.Broadcast on a hub with 1-6 peers (bcast_test.go). See /verif/notes/C17.md.
+// identical payloads (twins_test.go), Connection.Broadcast on a hub with 1-6 peers (bcast_test.go), shapes of the caller's
+// context incl. deadlines (ctx_test.go: the only place where elapsed time is bounded - generous upper bounds, confirmed
+// 3 of 3 times). See /verif/notes/C17.md.
 package c17
 
 import (
@@ -71,6 +73,8 @@ type attPlan struct {
 	DupAfter   int    `json:"dup_after,omitempty"`
 	DupDelayUs int    `json:"dup_delay_us,omitempty"`
 	Err        bool   `json:"err,omitempty"`
+	// the handler never answers while the call runs (it returns its reply only after the call has returned); ctx_test.go
+	Silent bool `json:"silent,omitempty"`
 }
 
 type callPlan struct {
@@ -89,6 +93,11 @@ type callPlan struct {
 	Cancel   bool      `json:"cancel,omitempty"`
 	CancelUs int       `json:"cancel_us,omitempty"`
 	Att      []attPlan `json:"att"`
+	// shape of the caller's context (ctx_test.go); "" = context.WithCancel, cancelled as planned by Cancel/CancelUs.
+	// CtxUs: distance of the deadline / of the cancellation from the start of the call. Resp: responder kind (label only).
+	Ctx   string `json:"ctx,omitempty"`
+	CtxUs int    `json:"ctx_us,omitempty"`
+	Resp  string `json:"responder,omitempty"`
 }
 
 type unsolPlan struct {
@@ -106,6 +115,8 @@ type workload struct {
 	Unsol     []unsolPlan `json:"unsolicited,omitempty"`
 	Force     bool        `json:"force,omitempty"` // directed reproduction: do not avoid known triggers
 	Storm     bool        `json:"storm,omitempty"` // late-response-storm class (storm_test.go): liveness probe afterwards
+	// context-shape class (ctx_test.go): every call carries a context shape; elapsed time is bounded (generous upper bounds)
+	CtxClass string `json:"ctx_class,omitempty"`
 	// broadcast class (bcast_test.go): private cluster per case - node 0 (hub) connected to Star peers (nodes 1..Star) that
 	// are not connected among themselves; Peers[n] = how node n serves the requests of a Broadcast; Disturb = peers that
 	// stop / are disconnected by the hub while the calls run
@@ -178,6 +189,7 @@ type callState struct {
 	berr   error
 	bPeers int
 	bRuns  map[int]int
+	cx     ctxCall // context-shape class (ctx_test.go)
 }
 
 type caseState struct {
@@ -490,7 +502,7 @@ func onUnknown(id string) {
 	e.unknown++
 	waiting := 0
 	for _, o := range cs.owners[id] {
-		if o.entered && !o.timeoutFired && !o.call.cancelled {
+		if o.entered && !o.timeoutFired && !o.call.ctxOver() {
 			waiting++
 		}
 	}
@@ -506,7 +518,7 @@ func onUnknown(id string) {
 		close(a.handledCh)
 	}
 	src := a.call.plan.Src
-	if a.timeoutFired || a.call.cancelled || a.call.returned {
+	if a.timeoutFired || a.call.ctxOver() || a.call.returned {
 		a.lateUnknown = true
 		others := int(cs.nodeIn[src].Load())
 		if !a.call.returned {
@@ -564,6 +576,9 @@ func (cs *caseState) cancelCall(c *callState) {
 	cs.mu.Lock()
 	already := c.cancelled
 	c.cancelled = true
+	if !already && c.cx.endAt.IsZero() {
+		c.cx.endAt = time.Now() // context-shape class: the moment the harness ended the context
+	}
 	cs.mu.Unlock()
 	if !already {
 		close(c.cancelCh)
@@ -642,6 +657,12 @@ func handle(node int, w p2p.ResponseWriter, req *p2p.Request) {
 		a.rawSent++
 		cs.mu.Unlock()
 		cs.raw(node, src, req.ID, tok, pl.Err)
+	}
+	if pl.Silent { // never answers while the call runs
+		select {
+		case <-c.done:
+		case <-cs.closing:
+		}
 	}
 	sleepUs(pl.LatUs)
 	if pl.Err {
@@ -737,6 +758,7 @@ type verdict struct {
 	otherCancelledN int
 	tw              twinStats  // identical-payload groups (twins_test.go)
 	bc              bcastStats // Broadcast calls (bcast_test.go)
+	cx              ctxStats   // context shapes (ctx_test.go)
 }
 
 func (v *verdict) add(sig, format string, a ...any) {
@@ -759,6 +781,9 @@ func (c *callState) describe() string {
 		sb.WriteString(")")
 	} else if c.returned {
 		fmt.Fprintf(&sb, " result(data=%q err=%v)", string(c.resp.Data()), c.resp.Error())
+	}
+	if c.plan.Ctx != "" {
+		sb.WriteString(" " + c.describeCtx())
 	}
 	for _, a := range c.atts {
 		sb.WriteString("\n      " + a.describe())
@@ -993,7 +1018,11 @@ func (cs *caseState) runCall(g int64, c *callState) {
 	cs.byGid[g] = c
 	cs.mu.Unlock()
 	sleepUs(c.plan.PreUs)
-	cs.twinArrive(c) // identical-payload group: all of its calls go together, within one wall-clock second
+	cs.twinArrive(c)      // identical-payload group: all of its calls go together, within one wall-clock second
+	if c.plan.Ctx != "" { // context-shape class: the context is made now, its deadline counts from the start of the call
+		ctx = cs.shapeCtx(c, ctx)
+		defer cs.ctxRescueStop(c)
+	}
 	var tm *time.Timer
 	if c.plan.CancelFirst {
 		cs.cancelCall(c)
@@ -1035,6 +1064,9 @@ func (cs *caseState) runCall(g int64, c *callState) {
 	}
 	if d := time.Since(tc); d > 500*time.Millisecond && os.Getenv("VERIF_C17_TRACE") != "" {
 		fmt.Fprintf(os.Stderr, "  c17 slow call %d (%v): broadcast=%v unreachable=%v hole=%d cancel=%v err=%v/%v\n", c.idx, d.Round(time.Millisecond), c.plan.Bcast, c.plan.Unreach, c.plan.Hole, c.plan.Cancel, resp.Error(), berr)
+	}
+	if c.plan.Ctx != "" {
+		cs.ctxReturned(c, ctx, tc)
 	}
 	cs.setWant(c, false)
 	cs.nodeIn[c.plan.Src].Add(-1)
@@ -1282,6 +1314,8 @@ func (cs *caseState) evaluate(v *verdict, finished bool) {
 				v.timeoutN++
 			case errors.Is(e, context.Canceled) || strings.Contains(e.Error(), "context canceled"):
 				v.cancelN++
+			case c.plan.Ctx != "" && (errors.Is(e, context.DeadlineExceeded) || strings.Contains(e.Error(), "context deadline exceeded")):
+				v.cx.deadlineN++
 			case c.plan.Unreach: // nobody knows an address of that peer: any error is the expected outcome
 				v.unreachN++
 			default:
@@ -1332,6 +1366,7 @@ func (cs *caseState) evaluate(v *verdict, finished bool) {
 	}
 	cs.judgeTwins(v)
 	cs.judgeStalled(v)
+	cs.judgeCtx(v)
 }
 
 // ---- workload generator ----
@@ -1487,6 +1522,9 @@ func summarize(w *workload, v *verdict) map[string]any {
 			}
 		}
 	}
+	if w.CtxClass != "" {
+		ctxSummary(m, w, v)
+	}
 	k := len(w.Calls)
 	if k > 3 {
 		k = 3
@@ -1508,6 +1546,9 @@ func record(t fataler, kind string, w *workload, v *verdict) (knownHit bool) {
 	}
 	if w.Star > 0 { // broadcast class, see bcastLabels
 		nontrivial = bcastNontrivial(v)
+	}
+	if w.CtxClass != "" { // context-shape class, see ctxLabels
+		nontrivial = ctxNontrivial(v)
 	}
 	labels := []string{kind, fmt.Sprintf("conns=%d", w.NConn)}
 	if v.maxOver >= 8 {
@@ -1595,6 +1636,11 @@ func record(t fataler, kind string, w *workload, v *verdict) (knownHit bool) {
 		evid.R.Label("storm:unreachable-peer-calls", int64(v.unreachN))
 		evid.R.Label("storm:liveness-probes", int64(v.probeN))
 		evid.R.Label("storm:liveness-probes-served", int64(v.probeOK))
+	} else if w.CtxClass != "" {
+		if w.Star > 0 {
+			bcastLabels(w, v) // counters of the Broadcast calls
+		}
+		labels = append(labels, ctxLabels(w, v)...)
 	} else if w.Star > 0 {
 		labels = append(labels, bcastLabels(w, v)...)
 	} else {
